@@ -19,3 +19,104 @@ Theorem C07_reask_bounded :
     dial_send fuel d bm q a 0 s = dial_send (S (N.to_nat MaxDnsLookupDepth)) d bm q a 0 s.
 Proof. exact C07_reask_bounded_proof. Qed.
 Print Assumptions C07_reask_bounded.
+
+(* The interface to C11 (domain matching), spelled out: for every domain set the builder registered — array index i,
+   key, patterns — bit i of the bitmap the domain matcher returned for the question name is readable
+   (`bitmap[i/32]` exists) and says whether one of the patterns holds for the normalised name. *)
+Definition C07_domain_oracle_agrees (b : builder) (bm : list N) (q : question) : Prop :=
+  forall ds, In ds (b_domsets b) ->
+    bm_read bm (ds_index ds)
+    = Some (existsb (fun s => domain_holds (ds_key ds) s (norm_name (q_name q)) (q_regex_hits q)) (ds_domains ds)).
+
+(* A well-formed dns section (any number of upstream tags up to the limit, rules, &&-conditions, key groups, values,
+   negations, any targets and fallbacks) is never refused by dns.New. *)
+Theorem C07_config_accepted :
+  forall cfg : config, wf_config cfg = true ->
+    exists rq rp, build_matcher Request (cf_upstreams cfg) (cf_request cfg) = Ok rq /\
+                  build_matcher Response (cf_upstreams cfg) (cf_response cfg) = Ok rp /\
+                  dns_new cfg = Ok {| d_ups := cf_upstreams cfg; d_req := rq; d_resp := rp |}.
+Proof. exact dns_new_total. Qed.
+Print Assumptions C07_config_accepted.
+
+(* REQUEST ROUTING = FIRST MATCH.  For every well-formed dns section and every question (any name — any case, with or
+   without trailing dot, also the empty name — and any qtype), the code path
+   RulesBuilder.Apply + addQName/addQType + addFallback + Build -> RequestMatcher.Match -> Dns.RequestSelect
+   returns exactly the verdict of the first matching request rule (or of the fallback). *)
+Theorem C07_request_first_match :
+  forall (cfg : config) (d : dns) (bm : list N) (q : question),
+    wf_config cfg = true -> dns_new cfg = Ok d ->
+    (q_name q <> ""%string -> C07_domain_oracle_agrees (d_req d) bm q) ->
+    exists v, request_route cfg q = Some v /\ request_select d bm q = Ok v.
+Proof. exact request_select_refines. Qed.
+Print Assumptions C07_request_first_match.
+
+(* RESPONSE ROUTING = FIRST MATCH.  Same for answers: any mix of A / AAAA / other records, any answering upstream
+   (a configured one or the as-is server), conditions on name, type, answering upstream and answer addresses. *)
+Theorem C07_response_first_match :
+  forall (cfg : config) (d : dns) (bm : list N) (q : question) (ans : list rr) (from : src),
+    wf_config cfg = true -> dns_new cfg = Ok d -> q_name q <> ""%string ->
+    C07_domain_oracle_agrees (d_resp d) bm q ->
+    exists v, response_route cfg q ans from = Some v /\ response_select d bm q ans from = Ok v.
+Proof. exact response_select_refines. Qed.
+Print Assumptions C07_response_first_match.
+
+(* REJECT IGNORES THE CACHE.  For every cache state: a question whose first matching request rule says reject is
+   answered with the empty answer, no upstream is asked, no entry of its family (name, qtype; any scope) is left, and
+   every other entry stays. *)
+Theorem C07_reject_ignores_cache :
+  forall (cfg : config) (d : dns) (bmq bmr : list N) (c : cache) (q : question) (a : answers) (fuel : nat),
+    wf_config cfg = true -> dns_new cfg = Ok d ->
+    (q_name q <> ""%string -> C07_domain_oracle_agrees (d_req d) bmq q) ->
+    request_route cfg q = Some QReject ->
+    handle fuel d bmq bmr c q a = (Ok [], [], cache_remove_family c q) /\
+    (forall scope, cache_lookup (cache_remove_family c q) q scope = None) /\
+    (forall e, In e (cache_remove_family c q) <-> In e c /\ same_family q e = false).
+Proof. exact C07_reject_ignores_cache_proof. Qed.
+Print Assumptions C07_reject_ignores_cache.
+
+(* THE CONTROLLER FOLLOWS THE RULES.  For every well-formed section, cache state, question and family of upstream
+   answers, HandleWithResponseWriter_/dialSend (with any recursion fuel above the depth bound) produce exactly the
+   spec's outcome, the same upstream queries in the same order and the same cache: accepted / emptied / asked again
+   per first matching response rule, at most MaxDnsLookupDepth queries, "too deep" otherwise. *)
+Theorem C07_answer_refines :
+  forall (cfg : config) (d : dns) (bmq bmr : list N) (c : cache) (q : question) (a : answers) (fuel : nat),
+    wf_config cfg = true -> dns_new cfg = Ok d -> q_name q <> ""%string ->
+    C07_domain_oracle_agrees (d_req d) bmq q -> C07_domain_oracle_agrees (d_resp d) bmr q ->
+    (N.to_nat MaxDnsLookupDepth < fuel)%nat ->
+    handle fuel d bmq bmr c q a
+    = (let '(o, l, c') := answer_question (N.to_nat MaxDnsLookupDepth) cfg c q a in (res_of_outcome o, l, c')).
+Proof. exact handle_refines. Qed.
+Print Assumptions C07_answer_refines.
+
+(* ACCEPT / EMPTY / RE-ASK, one step of the spec: what happens to an upstream answer is decided by the first matching
+   response rule alone. *)
+Theorem C07_accept_reject_reask :
+  forall (cfg : config) (q : question) (a : answers) (n k : nat) (s : src) (ans : list rr),
+    a s k = UAnswer ans ->
+    match response_route cfg q ans s with
+    | Some PAccept => chase cfg q a (S n) k s = (Replied ans, [s])
+    | Some PReject => chase cfg q a (S n) k s = (Replied [], [s])
+    | Some (PUp j) => chase cfg q a (S n) k s
+                      = (fst (chase cfg q a n (S k) (SUp j)), s :: snd (chase cfg q a n (S k) (SUp j)))
+    | None => chase cfg q a (S n) k s = (RouteError, [s])
+    end.
+Proof. exact C07_accept_reject_reask_proof. Qed.
+Print Assumptions C07_accept_reject_reask.
+
+(* Non-vacuity: a section with two upstreams, key groups, negation, all four functions and response rules that bounce
+   is well formed; three questions are decided by rule 1, rule 2 (reject) and the fallback; a bouncing answer family is
+   refused after exactly three queries; another is accepted at the second upstream; an AAAA answer is emptied; the
+   section compiles to 6 + 5 match-sets and a rejected question clears its cached family. *)
+Example C07_nonvacuous :
+  wf_config ex_cfg = true /\
+  request_route ex_cfg (ex_q 1) = Some (QUp 1) /\
+  request_route ex_cfg (ex_q 28) = Some QReject /\
+  request_route ex_cfg {| q_name := "x.net"; q_type := 1; q_regex_hits := [] |} = Some QAsIs /\
+  chase ex_cfg (ex_q 1) ex_answers 3 0 (SUp 1) = (TooDeep, [SUp 1; SUp 0; SUp 1]) /\
+  chase ex_cfg (ex_q 1) (fun s k => UAnswer [RA 0x08080808]) 3 0 (SUp 0) = (Replied [RA 0x08080808], [SUp 0; SUp 1]) /\
+  chase ex_cfg (ex_q 1) (fun s k => UAnswer [RAAAA (2 ^ 127)]) 3 0 SAsIs = (Replied [], [SAsIs]) /\
+  (exists d, dns_new ex_cfg = Ok d /\ List.length (b_rules (d_req d)) = 6%nat /\ List.length (b_rules (d_resp d)) = 5%nat /\
+     handle 10 d (repeat 0 32) (repeat 0 32)
+            [{| ce_name := "www.example.com"; ce_type := 28; ce_scope := 1; ce_answer := [RAAAA 1] |}] (ex_q 28) ex_answers
+     = (Ok [], [], [])).
+Proof. exact C07_nonvacuous_proof. Qed.
